@@ -30,4 +30,78 @@ theorem decode_encode (inSet : Nat → Bool) (hp : inSet 37 = true) (bs : List N
 example : percentDecode (percentEncode (fun b => b = 37 || b = 47) [97, 37, 50, 53, 47, 233]) = [97, 37, 50, 53, 47, 233] := by
   decide
 
+
+/-- `%2541` comes out as `%41`, not `A`: the decoder never looks at its own output. -/
+example : percentDecode [37, 50, 53, 52, 49] = [37, 52, 49] ∧
+    percentDecode (percentDecode [37, 50, 53, 52, 49]) = [65] := by decide
+
+/-- **C15 (2) form round trip, byte level**: what `form_urlencoded::byte_serialize` writes,
+    `form_urlencoded`'s decoder (`+` → space, then percent-decoding) reads back exactly. -/
+theorem formDecode_serialize (bs : List Nat) (hb : ∀ b ∈ bs, b < 256) :
+    formDecodeBytes (byteSerialize bs) = bs :=
+  formDecodeBytes_byteSerialize bs hb
+
+/-- and for text (valid UTF-8) the lossy step is the identity, so the application sees the
+    client's string. -/
+theorem formDecode_serialize_text (bs : List Nat) (hb : ∀ b ∈ bs, b < 256) (hu : utf8Valid bs = true) :
+    formDecode (byteSerialize bs) = bs := by
+  unfold formDecode
+  rw [formDecodeBytes_byteSerialize bs hb]
+  unfold utf8Lossy
+  apply utf8LossyAux_of_valid
+  intro hn
+  simp [utf8Valid, utf8Decode, hn] at hu
+
+example : formDecode (byteSerialize [97, 32, 43, 37, 38, 61, 195, 169]) = [97, 32, 43, 37, 38, 61, 195, 169] := by
+  decide
+
+/-- **C15 (3) parse ∘ print = id on the type's range, and nothing outside it** (unsigned):
+    the decimal rendering of `n` parses to `n` exactly when `n` fits. -/
+theorem parse_print_unsigned (max n : Nat) :
+    parseUnsigned max (decDigits n) = if n ≤ max then some n else none :=
+  parseUnsigned_decDigits max n
+
+/-- No input whatsoever parses to a value outside the type's range (exact overflow behaviour). -/
+theorem parseUnsigned_in_range (max : Nat) (bs : List Nat) (n : Nat)
+    (h : parseUnsigned max bs = some n) : n ≤ max :=
+  parseUnsigned_le h
+
+example : parseUnsigned 255 [50, 53, 53] = some 255 ∧ parseUnsigned 255 [50, 53, 54] = none ∧
+    parseUnsigned 255 [43, 48, 48, 55] = some 7 ∧ parseUnsigned 255 [45, 48] = none ∧
+    parseUnsigned 255 [] = none ∧ parseUnsigned 255 [43] = none := by decide
+
+/-- **C15 (4) field-by-name and decode-once for path parameters**: with distinct parameter names
+    in the route and distinct field names in the struct, `PathParams::extract` succeeds with `vals`
+    exactly when every raw value is UTF-8 after ONE percent-decoding and `vals` is, field by field in
+    declaration order, the parse of the (once-decoded) parameter *of that name* — wherever it sits in
+    the URL; parameters that name no field are ignored. -/
+theorem path_by_name (fields : List Field) (params : List (List Nat × List Nat))
+    (hfn : (fields.map (·.name)).Nodup) (hpn : (params.map (·.1)).Nodup)
+    (vals : List (List Nat × Val)) :
+    pathExtract fields params = .ok vals ↔
+      ∃ dps, decodeParams params = .ok dps ∧ pathSpec dps fields = some vals := by
+  unfold pathExtract
+  cases hd : decodeParams params with
+  | error e => simp
+  | ok dps =>
+    have hdn : (dps.map (·.1)).Nodup := by rw [decodeParams_keys hd]; exact hpn
+    simp only [Except.ok.injEq, exists_eq_left']
+    have hw := pathWalk_ok_iff fields dps [] 
+    constructor
+    · intro h
+      cases hwk : pathWalk fields dps [] with
+      | error e => simp [hwk] at h
+      | ok acc =>
+        simp only [hwk] at h
+        obtain ⟨hacc, hk⟩ := (hw acc hdn (by intro p _; simp [lookup])).mp hwk
+        simp only [List.nil_append] at hacc
+        subst hacc
+        exact (finishFields_eq_spec fields (fun f hf => finishOne_eq_spec hfn hf hdn hk) vals).mp h
+    · intro h
+      have hk := knownParse_of_spec hdn h
+      have hwk : pathWalk fields dps [] = .ok (walkVals fields dps) :=
+        (hw _ hdn (by intro p _; simp [lookup])).mpr ⟨by simp, hk⟩
+      simp only [hwk]
+      exact (finishFields_eq_spec fields (fun f hf => finishOne_eq_spec hfn hf hdn hk) vals).mpr h
+
 end Pxv.ReqData
